@@ -133,6 +133,9 @@ pub fn spend_json(s: &OwnedSpendConditions) -> Value {
         "parent_amount": pkm(&s.agg_sig_parent_amount), "parent_puzzle": pkm(&s.agg_sig_parent_puzzle),
         "flags": s.flags, "ccost": bignat_u64(s.condition_cost), "ecost": bignat_u64(s.execution_cost),
         "fp": jbytes(s.fingerprint.as_ref()),
+        // the same ids through the public Coin type (Coin::coin_id has its own integer encoder)
+        "id_api": jbytes(chia_protocol::Coin::new(s.parent_id, s.puzzle_hash, s.coin_amount).coin_id().as_ref()),
+        "cc_ids": Value::Array(s.create_coin.iter().map(|(ph, amt, _)| jbytes(chia_protocol::Coin::new(s.coin_id, *ph, *amt).coin_id().as_ref())).collect()),
     })
 }
 
@@ -223,9 +226,13 @@ pub struct Gen<'a> {
     pub agg_sig_bias: bool,
 }
 
-pub const AMOUNTS: [u128; 22] = [
+pub const AMOUNTS: [u128; 38] = [
     0, 1, 2, 3, 0x7f, 0x80, 0xff, 0x100, 0x7fff, 0x8000, 0xffff, 1_000_000, 0x7fff_ffff, 0x8000_0000, 0xffff_ffff, 0x1_0000_0000,
-    1_750_000_000_000, 0x7fff_ffff_ffff_ffff, 0x8000_0000_0000_0000, 0xffff_ffff_ffff_fffe, 0xffff_ffff_ffff_ffff, 0x1_0000_0000_0000_0000,
+    1_750_000_000_000, 0x7fff_ffff_ffff_ffff, 0x8000_0000_0000_0000, 0xffff_ffff_ffff_fffe,
+    // the remaining byte-length boundaries of the minimal encoding (2^(8k-1) - 1, 2^(8k-1), 2^(8k) - 1, 2^(8k); k = 3, 5, 6, 7)
+    0x7f_ffff, 0x80_0000, 0xff_ffff, 0x100_0000, 0x7f_ffff_ffff, 0x80_0000_0000, 0xff_ffff_ffff, 0x100_0000_0000,
+    0x7fff_ffff_ffff, 0x8000_0000_0000, 0xffff_ffff_ffff, 0x1_0000_0000_0000, 0x7f_ffff_ffff_ffff, 0x80_0000_0000_0000, 0xff_ffff_ffff_ffff, 0x100_0000_0000_0000,
+    0xffff_ffff_ffff_ffff, 0x1_0000_0000_0000_0000,
 ];
 
 pub fn off_subgroup_g1(r: &mut StdRng) -> Vec<u8> {
@@ -368,7 +375,7 @@ pub fn gen_bundle(g: &mut Gen<'_>, max_spends: usize, max_conds: usize) -> Sx {
     let mut plans: Vec<SpendPlan> = Vec::new();
     let mut created: Vec<Vec<(Vec<u8>, u128)>> = vec![Vec::new(); n];
     for i in 0..n {
-        let amount = if g.clean { g.pick(&AMOUNTS[5..21]) } else { g.pick(&AMOUNTS[..21]) };
+        let amount = if g.clean { g.pick(&AMOUNTS[5..AMOUNTS.len() - 1]) } else { g.pick(&AMOUNTS[..AMOUNTS.len() - 1]) };
         let (parent, ph, amount) = if !plans.is_empty() && g.p(1, 4) {
             // ephemeral: child of an earlier spend (the parent may or may not create it)
             let j = g.r.random_range(0..plans.len());
